@@ -58,7 +58,11 @@ func BuildCar() error {
 			buildErr = err
 			return
 		}
-		cmd := exec.Command("go", "build", "-modfile="+modfile, "-o", CarBin, "./car")
+		args := []string{"build", "-modfile=" + modfile, "-o", CarBin}
+		if ov := os.Getenv("VCHECK_OVERLAY"); ov != "" {
+			args = append(args, "-overlay", ov) // development only, see vcheck
+		}
+		cmd := exec.Command("go", append(args, "./car")...)
 		cmd.Dir = "/repo/cmd"
 		cmd.Env = append(os.Environ(), "GOFLAGS=-mod=mod", "GOPROXY=off", "GOSUMDB=off", "GOTOOLCHAIN=local", "CGO_ENABLED=0")
 		if out, err := cmd.CombinedOutput(); err != nil {
